@@ -79,6 +79,17 @@ CLAIMED = {
          'Bures similarity/metric are not modelled (LAPACK): only metamorphic supporting tests; positive-semidefiniteness of V^-1 is a '
          'hypothesis of the whitened-range theorem; tau-b / rho-a tie semantics are established by correspondence; CG tolerance 1e-3.',
          'DESIGN.md section 7, C03'),
+ 'C13': ('Coq proofs: entry deletion keeps vectors with a common NaN mask aligned; the NaN-aware weighted mean is NaN iff no RDM '
+         'has a value and is a weighted average + in-Coq correspondence of compare() on NaN-bearing RDMs, RDMs.mean and rescale',
+         'Theorems: vectors lacking exactly the same entries pair up, after deletion, exactly the values of common original positions '
+         '(with a witness that unequal masks of equal count would be entry-shifted); mean entry = sum_present(w x)/sum_present(w), '
+         'None iff every RDM misses it, and within [min,max] of the present values for positive weights. Correspondence: compare() '
+         'with masks none/common/differing between or within stacks/bootstrap-induced must equal the measure on the entry-deleted '
+         'vectors (V with the rows/columns deleted) or raise; RDMs.mean with all weight kinds; rescale outputs validated.',
+         'rescale iteration is not modelled, only its output is validated (one positive constant per RDM, NaN pattern kept, '
+         'proportional inputs on a common scale at a tight threshold); pooled / noise-ceiling RDMs and regression fits with NaNs are '
+         'covered under C07 / C08.',
+         'DESIGN.md section 7, C13'),
 }
 NA_REASON = 'check not built yet in this round (work in progress; see DESIGN.md section 7)'
 
